@@ -76,6 +76,11 @@ func corpus() []corpusEntry {
 		{"two-step, map", []cty.Type{cty.Map(tStr), obj("a", tNum)}, [][]cty.Value{nil, {ov("a", n(1))}}},
 		{"tuple conversion only", []cty.Type{cty.List(tStr), tup(tNum, tStr)}, nil},
 		{"object conversion only", []cty.Type{cty.Map(tStr), obj("a", tNum, "b", tStr)}, nil},
+		// --- safe chains that exist although the plain conversion does not (an attribute is dropped by the first step)
+		{"safe chain via map(list(object{k})), single object", []cty.Type{cty.Map(tup(obj("a", tBoo, "k", tBoo))), cty.Map(tup(cty.Map(tBoo))),
+			obj("a", tup(obj("a", tBoo, "k", tBoo)), "b", tup(obj("a", tNum, "k", tBoo)), "c", cty.List(obj("k", tBoo))), cty.Map(cty.EmptyTuple)}, nil},
+		{"safe chain, two objects", []cty.Type{obj("k", cty.Set(obj("k", tStr))), obj("k", tup(obj("k", tStr), obj("k", tBoo), obj("k", tBoo)), "z", cty.Set(cty.EmptyObject)),
+			cty.Map(cty.EmptyTuple), cty.Map(cty.List(cty.Map(tBoo)))}, nil},
 		// --- boundaries
 		{"single type", []cty.Type{tStr}, nil},
 		{"single dynamic", []cty.Type{tDyn}, nil},
